@@ -32,6 +32,12 @@ cdef int lit_typed(list l) except -1:
         l.append(c)
     return 0
 
+cdef int first_byte(bytes data) except? -1:
+    cdef int c
+    for c in data:
+        return c
+    return -2
+
 cdef int chars(list l, char x, char y) except -1:
     cdef object c
     for c in (x, y):
@@ -100,7 +106,7 @@ def _native(model, ob=None):
     import os
     import subprocess
     text = CATALOGUE + ("\ndef py_lit():\n    l = []\n    lit(l)\n    return l\ndef py_lit_typed():\n    l = []\n    lit_typed(l)\n    return l\n"
-                        "def py_chars(x, y):\n    l = []\n    chars(l, x, y)\n    return l\nmod_level = []\nfor _c in b'a\\xff': mod_level.append(_c)\n")
+                        "def py_chars(x, y):\n    l = []\n    chars(l, x, y)\n    return l\ndef py_first_byte(data): return first_byte(data)\nmod_level = []\nfor _c in b'a\\xff': mod_level.append(_c)\n")
     try:
         ctext, cfile = cextract.compile_pyx(text, name="dvbytesiter")
     except Exception as ex:
@@ -112,7 +118,7 @@ def _native(model, ob=None):
         return {"confirmed": False, "note": "build failed " + p.stderr[-300:]}
     code = ("import sys; sys.path.insert(0, %r); import dvbytesiter as m\n"
             "bad = [(n, got, want) for n, got, want in ((\"for c in b'a\\\\xff' (object target)\", m.py_lit(), [97, 255]), (\"(int target)\", m.py_lit_typed(), [97, 255]), "
-            "(\"for c in (x, y) with char x, y\", m.py_chars(65, 66), [65, 66]), (\"module level\", m.mod_level, [97, 255])) if got != want]\nprint(bad)\n" % d)
+            "(\"for c in (x, y) with char x, y\", m.py_chars(65, 66), [65, 66]), (\"module level\", m.mod_level, [97, 255]), (\"cdef int c; for c in b'\\\\x80..'\", m.py_first_byte(b'\\x80a'), 128), (\"for c in b''\", m.py_first_byte(b''), -2)) if got != want]\nprint(bad)\n" % d)
     r = subprocess.run(["/venv/bin/python", "-c", code], capture_output=True, text=True, timeout=120)
     out = r.stdout.strip()
     return {"inputs": "the catalogue loops, plus the same loop at module level", "actual": (out or r.stderr[-300:])[:500], "expected": "lists of ints, as CPython",
@@ -135,6 +141,18 @@ def units(tier):
         u.replay = _native
         u.concrete_search = lambda ob, regions=(): _native({}, ob)
         us.append(u)
+    # a loop over a bytes OBJECT with a C-integer target: the items are the bytes as unsigned values 0..255 (CPython yields ints 0..255);
+    # the loop body returns in its first iteration, so one unrolling is complete (unwinding assertion)
+    u = L3Unit("L3bytesiter.first_byte", {"C14": None}, CATALOGUE, "first_byte", pyobjs=("data",),
+               requires=[("the argument is a bytes object (the typed argument is not None)", lambda e: O.is_bytes_sub(e.data))],
+               ensures=[("the first item is the first byte as an unsigned value; -2 for an empty object",
+                         lambda e: And(e.err == 0, e.result == If(O.blen(e.data) >= 1, z3.Select(O.bytes_of(e.data), 0) % 256, -2)))],
+               options={"merge": False, "unroll": {0: 1}},
+               subject={"mechanism": "Optimize.IterationTransform._transform_bytes_iteration (signedness of the item pointer)"})
+    u.exec_cls = O.CExecPyObj
+    u.replay = _native
+    u.concrete_search = lambda ob, regions=(): _native({}, ob)
+    us.append(u)
     return us
 
 
